@@ -274,16 +274,17 @@ for ln in lines:
         if m.group(2).strip() == 'opaque': named[nm] = None
         else: named[nm] = ptype(P(m.group(2)))
 fn_re = re.compile(r'^(define|declare)\b(.*?)(@(?:"[^"]*"|[-A-Za-z0-9_.$]+))\s*\((.*)$')
-PARAM_ATTRS = re.compile(r'\b(noundef|nonnull|readonly|readnone|writeonly|nocapture|noalias|returned|zeroext|signext|inreg|immarg|nofree|nest|swiftself|align \d+|dereferenceable(_or_null)?\(\d+\)|byval\([^)]*\)|sret\([^)]*\)|captures\([^)]*\))')
+PARAM_ATTRS = re.compile(r'(?<![\w.@%"])(noundef|nonnull|readonly|readnone|writeonly|nocapture|noalias|returned|zeroext|signext|inreg|immarg|nofree|nest|swiftself|align \d+|dereferenceable(_or_null)?\(\d+\)|byval\([^)]*\)|sret\([^)]*\)|captures\([^)]*\))(?![\w.])')
 def strip_attrs(s):
     depth = 0; out = []
     # remove sret(...)/byval(...) including nested types
-    s = re.sub(r'\b(sret|byval|byref|preallocated|inalloca|elementtype)\((?:[^()]|\([^()]*\))*\)', '', s)
+    s = re.sub(r'(?<![\w.@%"])(sret|byval|byref|preallocated|inalloca|elementtype)\((?:[^()]|\([^()]*\))*\)', '', s)
     return PARAM_ATTRS.sub('', s)
 def parse_sig(ln):
     m = fn_re.match(ln)
     pre = m.group(2); name = m.group(3)
-    pre = re.sub(r'\b(dso_local|internal|linkonce_odr|weak_odr|weak|external|private|available_externally|hidden|protected|default|local_unnamed_addr|unnamed_addr|noundef|nonnull|zeroext|signext|noalias|fastcc|ccc|coldcc|align \d+|dereferenceable(_or_null)?\(\d+\))\b', '', pre)
+    pre = re.sub(r'dereferenceable(_or_null)?\(\d+\)', '', pre)
+    pre = re.sub(r'\b(dso_local|internal|linkonce_odr|weak_odr|weak|external|private|available_externally|hidden|protected|default|local_unnamed_addr|unnamed_addr|noundef|nonnull|zeroext|signext|noalias|fastcc|ccc|coldcc|align \d+)\b', '', pre)
     rt = ptype(P(pre.strip()))
     rest = m.group(4)
     # find matching ')'
@@ -432,7 +433,10 @@ def translate_func(name, rt, args, names, va, body):
                 elif op == 'inttoptr':
                     if v in ptrbase: e = '(%s)((char*)%s + (ptrdiff_t)((uintptr_t)%s - (uintptr_t)%s))' % (ctype(tt), ptrbase[v], v, ptrbase[v])
                     else: e = '(%s)(uintptr_t)%s' % (ctype(tt), v)
-                elif op == 'bitcast' and tt.kind != 'ptr': raise Exception('non-pointer bitcast')
+                elif op == 'bitcast' and tt.kind != 'ptr':
+                    if ft.kind == 'int' and tt.kind == 'float' and ft.bits in (32, 64): e = 'BC_u%d_f%d(%s)' % (ft.bits, ft.bits, v)
+                    elif ft.kind == 'float' and tt.kind == 'int' and tt.bits in (32, 64): e = 'BC_f%d_u%d(%s)' % (tt.bits, tt.bits, v)
+                    else: raise Exception('non-pointer bitcast')
                 elif op in ('sitofp', 'fptosi'): e = '(%s)%s' % (ctype(tt), scast(ft, v) if ft.kind == 'int' else '(int64_t)' + v)
                 elif op == 'trunc' and tt.bits == 1: e = '(%s & 1)' % v
                 else: e = '(%s)%s' % (ctype(tt), v)
@@ -652,7 +656,7 @@ def call_expr(callee, rt, fty, cargs, atypes, loc, c):
             if n == 'llvm.trap': return 'VERIF_TRAP("llvm.trap in %s")' % CURFN[0][:80]
             if n.startswith('llvm.va_') : return '__CPROVER_assert(0, "va")'
             if n.startswith('llvm.x86.rdtsc'): return 'nondet_u64()'
-            if n.startswith('llvm.fmuladd') or n.startswith('llvm.load.relative'): return '__CPROVER_assert(0, "unsupported intrinsic")'
+            if n.startswith('llvm.fmuladd'): return '(%s * %s + %s)' % (cargs[0], cargs[1], cargs[2])
             raise Exception('intrinsic ' + n)
         f = cid(callee)
         if f == '__CPROVER_assert':
@@ -671,6 +675,7 @@ def call_expr(callee, rt, fty, cargs, atypes, loc, c):
             m = re.search(r'0x([0-9a-f]+)', cargs[1]); line = int(m.group(1), 16) if m else 0
             return 'VERIF_ASMJIT_ASSERT("ASMJIT_ASSERT(%s) at %s:%d")' % (txt[:100], fil, line)
         args = ', '.join(cargs)
+        if f == 'bcmp': f = 'memcmp'
         return '%s(%s)' % (f, args)
     # indirect
     ft = fty or T('func', ret=rt, args=atypes, va=False)
@@ -767,6 +772,10 @@ static inline uint##B##_t I_cttz_##B(uint##B##_t x, _Bool u){ return x ? (uint##
 static inline uint##B##_t I_ctlz_##B(uint##B##_t x, _Bool u){ return x ? (uint##B##_t)__builtin_clz##SUF(x) : B; } \\
 static inline uint##B##_t I_ctpop_##B(uint##B##_t x){ return (uint##B##_t)__builtin_popcount##SUF(x); }
 DEF_CT2(32,) DEF_CT2(64,ll)
+static inline double BC_u64_f64(uint64_t v){ union { uint64_t i; double d; } u; u.i = v; return u.d; }
+static inline uint64_t BC_f64_u64(double v){ union { uint64_t i; double d; } u; u.d = v; return u.i; }
+static inline float BC_u32_f32(uint32_t v){ union { uint32_t i; float d; } u; u.i = v; return u.d; }
+static inline uint32_t BC_f32_u32(float v){ union { uint32_t i; float d; } u; u.d = v; return u.i; }
 static inline uint64_t I_bswap_64(uint64_t x){ return __builtin_bswap64(x); }
 static inline uint32_t I_bswap_32(uint32_t x){ return __builtin_bswap32(x); }
 static inline uint16_t I_bswap_16(uint16_t x){ return (uint16_t)((x<<8)|(x>>8)); }
@@ -783,7 +792,8 @@ for key, nm in lit_names.items():
         hdr.append('static inline struct %s I_smul_ov_%d_%s(uint%d_t a, uint%d_t b){ struct %s r; int%d_t t; r.f1=__builtin_mul_overflow((int%d_t)a,(int%d_t)b,&t); r.f0=(uint%d_t)t; return r; }' % (nm, b, nm, b, b, nm, b, b, b, b))
 # prototypes
 protos = []
-SKIP = {'memcpy', 'memset', 'memmove', 'malloc', 'free', 'realloc', 'strlen', 'memcmp', 'strcmp', 'calloc', 'abort', 'memchr', 'exit',
+SKIP = {'bcmp', 'strtol', 'strtoul', 'strtoll', 'strtoull', 'getenv', 'snprintf', 'vsnprintf', 'sprintf', 'printf', 'fprintf', 'fputs', 'puts', 'fwrite', 'fflush',
+        'strchr', 'strncmp', 'strcpy', 'strncpy', 'strcat', 'atoi', 'qsort', 'memcpy', 'memset', 'memmove', 'malloc', 'free', 'realloc', 'strlen', 'memcmp', 'strcmp', 'calloc', 'abort', 'memchr', 'exit',
         '__CPROVER_assert', '__CPROVER_assume', 'nondet_u64', 'nondet_u32', 'nondet_u16', 'nondet_u8', 'nondet_bool', 'verif_observe'}
 for (name, rt, args, names, va, body) in funcs:
     n = name[1:].strip('"')
